@@ -9,6 +9,9 @@ verus! {
 pub assume_specification<T> [core::mem::replace::<T>] (dest: &mut T, src: T) -> (r: T)
     ensures *final(dest) == src, r == *old(dest);
 
+pub assume_specification<T: Default> [core::mem::take::<T>] (dest: &mut T) -> (r: T)
+    ensures r == *old(dest), call_ensures(T::default, (), *final(dest));
+
 pub assume_specification<T, U, F: FnOnce(T) -> U> [Option::<T>::map_or] (o: Option<T>, default: U, f: F) -> (r: U)
     requires o matches Some(t) ==> f.requires((t,)),
     ensures match o { Some(t) => f.ensures((t,), r), None => r == default };
@@ -48,6 +51,11 @@ pub open spec fn hashed_by<T, H: Fn(&T) -> u64>(tv: TV<T>, h: H) -> bool {
 /// every occupied bucket of `a` is an occupied bucket of `b` with the same element and the same stored hash
 pub open spec fn tv_sub<T>(a: TV<T>, b: TV<T>) -> bool {
     forall|i: int| #[trigger] a.items.contains_key(i) ==> b.items.contains_key(i) && a.items[i] == b.items[i] && a.hashes[i] == b.hashes[i]
+}
+/// hash budget (C02): the hasher is only known to be applicable to the elements of `c` -- code that receives a hasher
+/// under this precondition can hash stored elements, and nothing else (in particular not a key that is being added)
+pub open spec fn hashes_stored<T, H: Fn(&T) -> u64>(c: Multiset<T>, h: H) -> bool {
+    forall|t: &T| c.count(*t) > 0 ==> #[trigger] h.requires((t,))
 }
 /// `e` answered false on every element of the table stored under `hash`
 pub open spec fn rejects_all<T, E: FnMut(&T) -> bool>(e: E, tv: TV<T>, hash: u64) -> bool {
@@ -238,7 +246,7 @@ impl<T> HbTable<T> {
     /// hashbrown 1107-1168: resizes only if fewer buckets suffice for max(len, min_size)
     #[verifier::external_body]
     pub fn shrink_to(&mut self, min_size: usize, hasher: impl Fn(&T) -> u64)
-        requires forall|t: &T| hasher.requires((t,)),
+        requires hashes_stored(old(self)@.elems, hasher),
         ensures tv_rehashed(final(self)@, old(self)@), tv_inv(final(self)@),
                 final(self)@.buckets <= old(self)@.buckets,
                 final(self)@.buckets == old(self)@.buckets ==> final(self)@ == old(self)@,
@@ -249,7 +257,7 @@ impl<T> HbTable<T> {
     #[verifier::external_body]
     pub fn reserve(&mut self, additional: usize, hasher: impl Fn(&T) -> u64)
         requires
-            additional > old(self)@.growth_left ==> forall|t: &T| hasher.requires((t,)), //@ dep.reserve.hasher C02,C17
+            additional > old(self)@.growth_left ==> hashes_stored(old(self)@.elems, hasher), //@ dep.reserve.hasher C02,C17
             additional > old(self)@.growth_left ==> may_panic_on_capacity_overflow(), //@ dep.reserve.documented_panic C10,C01
         ensures additional <= old(self)@.growth_left ==> final(self)@ == old(self)@,
             final(self)@.growth_left >= additional, tv_rehashed(final(self)@, old(self)@), tv_inv(final(self)@),
@@ -257,7 +265,7 @@ impl<T> HbTable<T> {
     { unimplemented!() }
     #[verifier::external_body]
     pub fn try_reserve(&mut self, additional: usize, hasher: impl Fn(&T) -> u64) -> (r: Result<(), TryReserveError>)
-        requires additional > old(self)@.growth_left ==> forall|t: &T| hasher.requires((t,)), //@ dep.try_reserve.hasher C02,C17
+        requires additional > old(self)@.growth_left ==> hashes_stored(old(self)@.elems, hasher), //@ dep.try_reserve.hasher C02,C17
         ensures additional <= old(self)@.growth_left ==> final(self)@ == old(self)@ && r.is_ok(),
             r.is_ok() ==> final(self)@.growth_left >= additional, tv_rehashed(final(self)@, old(self)@), tv_inv(final(self)@),
             r.is_err() ==> final(self)@ == old(self)@,
@@ -266,7 +274,7 @@ impl<T> HbTable<T> {
     /// growing insert (hashbrown 1298): may rehash everything
     #[verifier::external_body]
     pub fn insert(&mut self, hash: u64, value: T, hasher: impl Fn(&T) -> u64) -> (r: HbBucket<T>)
-        requires forall|t: &T| hasher.requires((t,)),
+        requires hashes_stored(old(self)@.elems, hasher), //@ dep.insert.hasher C02
         ensures final(self)@.items.len() == old(self)@.items.len() + 1, final(self)@.elems == old(self)@.elems.insert(value),
                 tv_inv(final(self)@), r@.table == final(self)@.id, final(self)@.items.contains_key(r@.idx), final(self)@.items[r@.idx] == value,
                 final(self)@.hashes[r@.idx] == hash,
@@ -301,7 +309,7 @@ impl<T> HbTable<T> {
     /// hashbrown 1324: the growing insert, returning a reference instead of the bucket
     #[verifier::external_body]
     pub fn insert_entry(&mut self, hash: u64, value: T, hasher: impl Fn(&T) -> u64) -> (r: &mut T)
-        requires forall|t: &T| hasher.requires((t,)),
+        requires hashes_stored(old(self)@.elems, hasher),
         ensures final(self)@.items.len() == old(self)@.items.len() + 1, final(self)@.elems == old(self)@.elems.insert(value), tv_inv(final(self)@),
                 hashed_by(old(self)@, hasher) && hasher.ensures((&value,), hash) ==> hashed_by(final(self)@, hasher),
     { unimplemented!() }
@@ -369,6 +377,11 @@ impl<T> HbTable<T> {
             iter@.remaining == self@.items.dom(), //@ dep.into_iter_from.covers C05,C08,C17
         ensures r@ == self@.elems
     { unimplemented!() }
+}
+impl<T> Default for HbTable<T> {
+    /// hashbrown: `Default` is `new()`
+    #[verifier::external_body]
+    fn default() -> (r: Self) ensures tv_empty(r@), r@.growth_left == 0, r@.buckets == 1, tv_inv(r@) { unimplemented!() }
 }
 impl<T: Clone> Clone for HbTable<T> {
     #[verifier::external_body]
